@@ -741,8 +741,10 @@ Definition sel_method (pi pr : params) : N :=
   end.
 
 (** the GENERATED [get_pin_code] decision gives the pin a device uses in legacy Passkey Entry *)
-Definition eff_pin (io gen typed : N) : N :=
-  match get_pin_code_source io with PinTyped => typed | PinGenerated => gen end.
+Definition eff_pin (is_init : bool) (io peer_io gen typed : N) : N :=
+  match get_pin_code_source is_init io peer_io with PinTyped => typed | PinGenerated => gen end.
+Definition eff_pin_i (pi pr : params) (sc : script) : N := eff_pin true (a_iocap pi) (a_iocap pr) (u_gen_i sc) (u_typed_i sc).
+Definition eff_pin_r (pi pr : params) (sc : script) : N := eff_pin false (a_iocap pr) (a_iocap pi) (u_gen_r sc) (u_typed_r sc).
 
 Fixpoint fdr (n : nat) (k a b : N) : N :=
   match n with
@@ -758,8 +760,7 @@ Definition control_of (pi pr : params) (sc : script) : ctl :=
      c_enc_i := N.testbit (a_kd pi) 0; c_id_i := N.testbit (a_kd pi) 1; c_sign_i := N.testbit (a_kd pi) 2;
      c_enc_r := N.testbit (a_kd pr) 0; c_id_r := N.testbit (a_kd pr) 1; c_sign_r := N.testbit (a_kd pr) 2;
      c_bond_i := a_bond pi; c_bond_r := a_bond pr;
-     c_pin_eq := if m =? 1 then N.eqb (eff_pin (a_iocap pi) (u_gen_i sc) (u_typed_i sc))
-                                      (eff_pin (a_iocap pr) (u_gen_r sc) (u_typed_r sc)) else true;
+     c_pin_eq := if m =? 1 then N.eqb (eff_pin_i pi pr sc) (eff_pin_r pi pr sc) else true;
      c_nc_i := if m =? 4 then u_nc_i sc else true;
      c_nc_r := if m =? 4 then u_nc_r sc else true;
      c_fdb := if m =? 5 then first_diff_round (u_typed_i sc) (u_typed_r sc) else 21;
@@ -805,8 +806,7 @@ Definition atom_value (pi pr : params) (sc : script) (e : env) (a k : N) : list 
   else if a =? aIoI then [auth_byte pi; b2n (a_oob pi); a_iocap pi]
   else if a =? aIoR then [auth_byte pr; b2n (a_oob pr); a_iocap pr]
   else if a =? aTk then
-    repeat 0 12 ++ be_bytes 4 (if k =? 0 then eff_pin (a_iocap pi) (u_gen_i sc) (u_typed_i sc)
-                               else eff_pin (a_iocap pr) (u_gen_r sc) (u_typed_r sc))
+    repeat 0 12 ++ be_bytes 4 (if k =? 0 then eff_pin_i pi pr sc else eff_pin_r pi pr sc)
   else if a =? aBit then
     (if k <? 32 then [128 + b2n (N.testbit (u_typed_i sc) (k - 1))]
      else [128 + b2n (N.testbit (u_typed_r sc) (k - 33))])
